@@ -925,6 +925,9 @@ class Fn:
             if s[1].replace(" ", "") == 'cfg(feature="tracing")' and inner[0] == "expr" and inner[1][0] == "block" and inner[1][2] is None:
                 ok_ = all(x[0] == "expr" and x[1][0] == "mcall" and x[1][2] == "record" and x[1][1] == ("call", ("path", ["tracing", "Span", "current"]), [])
                           for x in inner[1][1])
+            if s[1].replace(" ", "") == 'cfg(feature="tracing")' and inner[0] == "expr" and inner[1][0] == "mcall" and inner[1][2] == "record" \
+                    and inner[1][1] == ("call", ("path", ["tracing", "Span", "current"]), []):
+                ok_ = True
             if not ok_:
                 raise Unsupported("statement under #[%s]" % s[1])
             return after(env)
@@ -985,6 +988,17 @@ class Fn:
                 and len(s[3][2]) >= 3 and s[3][2][0][0] == "id" and s[3][2][1] == ("op", ",") and s[3][2][0][1] in env:
             tgt = s[3][2][0][1]
             return "let %s := %s ++ %s in %s" % (self.var(tgt), self.var(tgt), self.format_bytes(list(s[3][2][2:]), env), after(env))
+        if k == "let" and s[1][0] == "pbind" and s[3] is not None and s[3][0] == "try" and s[3][1][0] == "call" and s[3][1][1][0] == "path" \
+                and "::".join(s[3][1][1][1]) in self.spec.get("res_try_calls", {}):
+            tmpl, binds, errw = self.spec["res_try_calls"]["::".join(s[3][1][1][1])]
+            ev = self.fresh("e")
+            env9 = dict(env, **{s[1][1]: binds.get("type")})
+            return "match %s with RErr %s => %s | ROk %s => %s end" % (self.apply(tmpl, [self.ex(a, env) for a in s[3][1][2]]), ev, errw.format(ev),
+                                                                     binds["pattern"].format(self.var(s[1][1])), after(env9))
+        if k == "let" and s[1][0] == "pbind" and s[3] is not None and s[3][0] == "try" and s[3][1][0] == "mcall" and s[3][1][2] == "map_err" \
+                and s[3][1][1][0] == "call" and s[3][1][1][1] == ("path", ["u32", "try_from"]) and self.spec.get("u32_try_from"):
+            x = self.ex(s[3][1][1][2][0], env)
+            return "if %s >=? 4294967296 then %s else let %s := %s in %s" % (x, self.spec["u32_try_from"], self.var(s[1][1]), x, after(dict(env, **{s[1][1]: "u32"})))
         if k == "let" and s[1][0] == "pbind" and s[1][1] in self.spec.get("print_only_lets", ()):
             def uses(n):
                 if isinstance(n, tuple):
@@ -1076,6 +1090,10 @@ class Fn:
             env9 = dict(env, **{s[1][1]: "()"}) if (k == "let" and s[1][0] == "pbind") else env
             return "let effs := effs ++ [%s] in %s%s" % (efft, bind, after(env9))
         sx = s[1][1] if (k == "expr" and s[1][0] == "try") else None
+        if sx is not None and sx[0] == "mcall" and ("." + sx[2]) in self.spec.get("res_check_calls", {}):
+            tmpl9, errw9 = self.spec["res_check_calls"]["." + sx[2]]
+            ev = self.fresh("e")
+            return "match %s with RErr %s => %s | ROk _ => %s end" % (self.apply(tmpl9, [self.ex(sx[1], env)] + [self.ex(a, env) for a in sx[3]]), ev, errw9.format(ev), paren(after(env)))
         if sx is not None and sx[0] == "mcall" and ("." + sx[2]) in self.spec.get("try_res_calls", {}):
             ev = self.fresh("e")
             return "match %s with RErr %s => %s | ROk _ => %s end" % (self.apply(self.spec["try_res_calls"]["." + sx[2]], [self.ex(sx[1], env)] + [self.ex(a, env) for a in sx[3]]),
@@ -1949,6 +1967,41 @@ def functions():
         return "Definition g_header_read_from (reader : list Z) : res (header * list Z) :=\n  %s." % text
     out.append(("header_read_from", "src/protocol.rs FrameHeader::read_from", None, t_hdr_read_from))
 
+    def t_codec_read():
+        src = read("src/protocol.rs")
+        params, ret, body = R.find_fn(src, "read_message", "Codec")
+        if [n for n, _ in params] != ["self", "reader"]:
+            raise Unsupported("signature of Codec::read_message is %s" % params)
+        def rw(n):
+            if isinstance(n, tuple):
+                if n == ("field", ("path", ["self"]), "read_buf"):
+                    return ("path", ["read_buf"])
+                return tuple(rw(x) for x in n)
+            if isinstance(n, list):
+                return [rw(x) for x in n]
+            return n
+        body2 = rw(body)
+        # `read_buf.resize(n, 0)` reserves n bytes (recorded as `alloc`) and makes read_buf the buffer the next read_exact fills
+        stmts = []
+        for st in body2[1]:
+            if st[0] == "expr" and st[1][0] == "mcall" and st[1][1] == ("path", ["read_buf"]) and st[1][2] == "resize" and len(st[1][3]) == 2 and st[1][3][1] == ("num", 0):
+                stmts.append(("let", ("pbind", "alloc"), None, st[1][3][0], None))
+                stmts.append(("let", ("pbind", "read_buf"), None, ("macro", "vec", [("num", "0u8"), ("op", ";"), ("id", "alloc")]), None))
+            else:
+                stmts.append(st)
+        if len(stmts) != len(body2[1]) + 1:
+            raise Unsupported("Codec::read_message: `self.read_buf.resize(header.length as usize, 0)` not found")
+        spec = dict(hdr_spec(), self_type="Codec", read_exact={"read_buf": "(alloc, RErr EIo)"},
+                    res_try_calls={"FrameHeader::read_from": ("g_header_read_from {0}", {"pattern": "({0}, reader)", "type": "FrameHeader"}, "(alloc, RErr {0})")},
+                    prologue="let alloc := 0 in ")
+        spec["try_res_calls"] = {}
+        spec["calls"] = dict(spec["calls"], **{"Message::decode": ("(alloc, match decode_message {0} with Some (m, _) => ROk (m, reader) | None => RErr EDecode end)", "Res")})
+        spec["res_check_calls"] = {".validate": ("g_hvalidate {0}", "(alloc, RErr {0})")}
+        fn = Fn(spec)
+        text = spec["prologue"] + fn.block(("block", stmts, body2[2]), {"self": "Codec", "reader": "Input"}, Ctx(val=(lambda x: x), ret=(lambda x: x), fall=None))
+        return "Definition g_read_message (reader : list Z) : Z * res (message * list Z) :=\n  %s." % text
+    out.append(("codec_read_message", "src/protocol.rs Codec::read_message", None, t_codec_read))
+
     def t_dvalidate():
         src = read("src/delta.rs")
         spec = dict(fields={("Delta", "ops"): ("(d_ops _ {0})", "Vec<DeltaOp>"), ("Delta", "basis_size"): ("(d_basis_size _ {0})", "u64")},
@@ -2796,7 +2849,7 @@ GROUPS = {
     "Archive": ("Model.Archive", "archive", ["archive_load"]),
     "Plan": ("Model.Glob Model.Plan", False, ["needs_transfer", "glob_match", "is_excluded", "build_plan"]),
     "Protocol": ("Model.Checksum Model.Delta Model.Protocol", False, ["from_u8", "hvalidate"]),
-    "ProtocolHeader": ("Model.Checksum Model.Delta Model.Bincode Model.Protocol Gen.ProtocolGen", "protocolheader", ["header_new", "header_encode", "header_decode", "header_read_from"]),
+    "ProtocolHeader": ("Model.Checksum Model.Delta Model.Bincode Model.Protocol Gen.ProtocolGen", "protocolheader", ["header_new", "header_encode", "header_decode", "header_read_from", "codec_read_message"]),
     "CliReaders": ("Model.Checksum Model.Delta Model.Protocol", "clireaders", ["validate_block_size", "run_patch", "run_delta"]),
     "DeltaV": ("Model.Checksum Model.Delta", True, ["delta_validate"]),
     "SigTable": ("Model.Checksum Model.Delta", "sigtable", ["bsig_compute", "sig_generate", "table_from_signature", "table_find_match", "table_has_weak_match", "table_is_empty"]),
@@ -2984,8 +3037,9 @@ def main():
                      "  {| h_m0 := nthZ magic 0; h_m1 := nthZ magic 1; h_m2 := nthZ magic 2; h_m3 := nthZ magic 3; h_length := length; h_type := t; h_version := version; h_flags := flags |}.\n"
                      "(* `uN::from_le_bytes([b0, b1, ..])` *)\n"
                      "Fixpoint le_bytes (l : list Z) : Z := match l with [] => 0 | b :: r => b + 256 * le_bytes r end.\n"
-                     "Definition with_rest (r : res header) (rest : list Z) : res (header * list Z) := match r with ROk h => ROk (h, rest) | RErr e => RErr e end.\n\n"
-                     + "\n".join(texts))
+                     "Definition with_rest (r : res header) (rest : list Z) : res (header * list Z) := match r with ROk h => ROk (h, rest) | RErr e => RErr e end.\n"
+                     "Section WithPayloadDecoder.\nVariable decode_message : list Z -> option (message * list Z).   (* Message::decode on exactly the payload *)\n\n"
+                     + "\n".join(texts) + "End WithPayloadDecoder.\n")
         elif digest == "plainz":
             body += "\n" + "\n".join(texts)
         elif digest == "archivesys":
